@@ -23,6 +23,8 @@ EXPLANATION = (
 
 
 def run(ctx: Ctx) -> None:
+    from ..rules import memo as _memo
+    _memo.rule_memo_sound(ctx, ['graphiq/backends/density_matrix/functions.py', 'graphiq/metrics.py', 'graphiq/backends/density_matrix/state.py'])
     numeric.rule_adjoint(ctx, [DMF, DMS])
     numeric.rule_einsum_trace(ctx)
     numeric.rule_raise_warning(ctx, [(DMF, "fidelity"), (DMF, "trace_distance"), (DMF, "partial_trace"),
